@@ -39,6 +39,7 @@ ALLT = TRAITS + ['IntoU8', 'IntoU16', 'Marker']
 def P(n): return ('param', n)
 U8 = ('u8',)
 NOIMPL = ('noimpl',)
+ARRN = ('arrn',)   # [u8; N]: an array over the const parameter (Default only known for N <= 32: opaque)
 LTPH = ('ltph',)   # PhantomData<&'a ()>: uses the lifetime parameter, implements everything
 def PH(t): return ('phantom', t)
 def OPT(t): return ('opt', t)
@@ -57,6 +58,8 @@ def rust(t):
         return 'NoImpl'
     if k == 'ltph':
         return "::core::marker::PhantomData<&'a ()>"
+    if k == 'arrn':
+        return '[u8; N]'
     if k == 'phantom':
         return f'::core::marker::PhantomData<{rust(t[1])}>'
     if k == 'opt':
@@ -83,6 +86,8 @@ def parse_term(s):
         return NOIMPL
     if s == "::core::marker::PhantomData<&'a()>":
         return LTPH
+    if s == '[u8;N]':
+        return ARRN
     if re.fullmatch(r'[A-Z][A-Za-z0-9_]*', s) and s not in ('Self',):
         return P(s)
     m = re.fullmatch(r'(::core::marker::)?PhantomData<(.+)>', s)
@@ -164,6 +169,10 @@ class Enc:
             return z3.BoolVal(True)      # u8: the nine traits, Into<u8> and Into<u16>
         if k == 'ltph':
             return z3.BoolVal(tr not in ('IntoU8', 'IntoU16'))
+        if k == 'arrn':
+            if tr in ('IntoU8', 'IntoU16', 'Marker'):
+                return z3.BoolVal(False)
+            return self.atom('[u8;N]:Default') if tr == 'Default' else z3.BoolVal(True)
         if k == 'noimpl':
             return z3.BoolVal(False)
         if tr in ('IntoU8', 'IntoU16'):
@@ -505,6 +514,33 @@ def W_formula(enc, req, impl, Wmap, educed):
     return z3.And(conj) if conj else z3.BoolVal(True)
 
 
+def custom_predicates_present(req, mode, impl):
+    """`bound(p1, p2, ..)` / `bound = ".."` adds exactly the given predicates: each must appear among the emitted ones"""
+    if not isinstance(mode, (str, tuple)) or mode == '*':
+        return True, ''
+    if isinstance(mode, tuple) and mode[0] in ('empty', 'falselist'):
+        return True, ''
+    txt = mode[1] if isinstance(mode, tuple) else mode
+    emitted = set()
+    for w in impl['where']:
+        lhs = norm(w.get('lhs', ''))
+        for b in w.get('bounds', []):
+            emitted.add(lhs + ':' + norm(b))
+        if w['kind'] != 'type':
+            emitted.add(norm(w.get('lhs', '') + ':' + '+'.join(w.get('bounds', []))))
+    for pred in split_top(txt):
+        pred = pred.strip()
+        if not pred:
+            continue
+        m = re.match(r"^(.+?)\s*:(?!:)\s*(.*)$", pred)
+        if not m:
+            continue
+        for part in split_top(m.group(2), '+'):
+            if norm(m.group(1)) + ':' + norm(part) not in emitted:
+                return False, f'custom predicate `{pred}` is not in the emitted where-clause {sorted(emitted)}'
+    return True, ''
+
+
 def header_matches(req, impl):
     """the impl header repeats the type's lifetime / type / const parameters with inline bounds, minus defaults"""
     want = [(k, n, norm(b or '')) for k, n, b, d in req.params]
@@ -679,6 +715,14 @@ def c12_corpus(tier, seed):
     add('struct', TU, [('S', 'named', [Field(T, Into='into'), Field(U, Into16='into')], False)], [('Into16', '*'), ('Into', ('list', 'T: ::core::convert::Into<u8>'))])
     add('struct', TU, [('S', 'tuple', [Field(T, Into='into', Into16='into'), Field(PH(U))], False)], [('Into', None), ('Into16', ('list', 'T: ::core::convert::Into<u16>, U: ::core::clone::Clone'))])
     add('enum', TU, [('A', 'tuple', [Field(T, Into='into', Into16='into'), Field(U)], False), ('B', 'named', [Field(T, Into='into', Into16='into')], False)], [('Into', ('list', 'T: ::core::convert::Into<u8>')), ('Into16', ('liststr', 'T: ::core::convert::Into<u16>'))])
+    # parameter lists without any type parameter: const-only and lifetime-only
+    CN = [('const', 'N', None, None)]
+    LA = [('lifetime', "'a", None, None)]
+    add('struct', CN, [('S', 'tuple', [Field(ARRN)], False)], [('Default', ('list', '[u8; N]: ::core::default::Default'))])
+    add('struct', CN, [('S', 'named', [Field(ARRN), Field(U8)], False)], [('Clone', ('str', '[u8; N]: ::core::clone::Clone')), ('Default', None)])
+    add('enum', CN, [('A', 'tuple', [Field(ARRN)], True), ('B', 'unit', [], False)], [('Default', None), ('Debug', ('list', '[u8; N]: ::core::fmt::Debug'))])
+    add('struct', LA, [('S', 'tuple', [Field(LTPH), Field(U8)], False)], [('Debug', ('list', "'a: 'static")), ('PartialEq', ('str', "'a: 'static"))])
+    add('struct', LA + CN, [('S', 'tuple', [Field(LTPH), Field(ARRN)], False)], [('Hash', ('list', "'a: 'static, [u8; N]: ::core::hash::Hash")), ('Clone', '*')])
     # auto mode on rich headers: header must still be reproduced
     for tr in ['Debug', 'Clone', 'PartialEq', 'Hash', 'Default']:
         add('struct', rich, [('S', 'named', [Field(T), Field(PH(U)), Field(U8)], False)], [(tr, None)], where='T: Marker2')
@@ -965,6 +1009,10 @@ def main(prop, tier, seed, keep=False):
                 okh, why = header_matches(req, im)
                 obligations += 1
                 if not okh:
+                    header_bad.append((req, tr, why))
+                    continue
+                okc, why = custom_predicates_present(req, mode, im)
+                if not okc:
                     header_bad.append((req, tr, why))
                     continue
                 W = W_formula(enc, req, im, Wmap, educed)
